@@ -290,24 +290,23 @@ impl Default for DocOpts {
 
 pub fn gen_field(t: &mut Tape, o: &DocOpts) -> Field {
     let name = gen_name(t, o.odd_names);
-    let nlines = if t.chance(2, 5) { t.range(1, o.max_lines) } else { 1 };
-    let mut lines = vec![];
-    for i in 0..nlines {
-        // an empty first line only makes sense for multi-line values or empty values
-        lines.push(gen_line(t, i > 0, i == 0, o.unicode));
-    }
     let colon_ws = if o.layout { gen_ws(t, 0, 4) } else { " ".to_string() };
-    let indents = (1..nlines).map(|_| if o.layout { gen_ws(t, 1, 6) } else { " ".to_string() }).collect();
     let mut comments_before = vec![];
-    if o.comments && t.chance(1, 6) {
-        for _ in 0..t.range(1, 2) {
+    if o.comments {
+        while t.more(comments_before.len(), 0, 2, 1, 7) {
             comments_before.push(gen_comment(t, o.unicode));
         }
+    }
+    let mut lines = vec![gen_line(t, false, true, o.unicode)];
+    let mut indents = vec![];
+    while t.more(lines.len(), 1, o.max_lines, 1, 3) {
+        indents.push(if o.layout { gen_ws(t, 1, 6) } else { " ".to_string() });
+        lines.push(gen_line(t, true, false, o.unicode));
     }
     Field { name, lines, colon_ws, indents, comments_before }
 }
 
-fn gen_gap(t: &mut Tape, o: &DocOpts, need_empty_first: bool, min_lines: usize) -> Vec<GapLine> {
+fn gen_gap(t: &mut Tape, o: &DocOpts, need_empty_first: bool) -> Vec<GapLine> {
     let mut v = vec![];
     if need_empty_first {
         v.push(GapLine::Empty);
@@ -315,16 +314,11 @@ fn gen_gap(t: &mut Tape, o: &DocOpts, need_empty_first: bool, min_lines: usize) 
     if !o.layout && !o.comments {
         return v;
     }
-    let extra = match t.below(8) {
-        0..=4 => 0,
-        5 => 1,
-        6 => 2,
-        _ => t.range(0, 4),
-    };
-    for _ in 0..extra.max(min_lines.saturating_sub(v.len())) {
-        if o.comments && t.chance(1, 2) {
+    let base = v.len();
+    while t.more(v.len() - base, 0, 4, 1, 5) {
+        if o.comments && (!o.layout || t.chance(1, 2)) {
             v.push(GapLine::Comment(gen_comment(t, o.unicode)));
-        } else if o.layout {
+        } else {
             v.push(GapLine::Empty);
         }
     }
@@ -332,30 +326,28 @@ fn gen_gap(t: &mut Tape, o: &DocOpts, need_empty_first: bool, min_lines: usize) 
 }
 
 pub fn gen_doc(t: &mut Tape, o: &DocOpts) -> Doc {
-    let np = t.range(o.min_paras, o.max_paras.max(o.min_paras));
     let mut d = Doc { final_newline: true, ..Default::default() };
-    d.leading = gen_gap(t, o, false, 0);
-    for pi in 0..np {
-        let nf = t.range(1, o.max_fields);
+    // document-level decisions first, so that they keep their tape position when content shrinks
+    d.final_newline = !(o.layout && t.chance(1, 5));
+    let trailing_gap = t.chance(1, 3);
+    d.leading = gen_gap(t, o, false);
+    while t.more(d.paras.len(), o.min_paras, o.max_paras, 3, 5) {
+        if !d.paras.is_empty() {
+            d.gaps.push(gen_gap(t, o, true));
+        }
         let mut p = Para::default();
-        for _ in 0..nf {
+        while t.more(p.fields.len(), 1, o.max_fields, 3, 5) {
             p.fields.push(gen_field(t, o));
         }
-        if o.comments && t.chance(1, 8) {
-            for _ in 0..t.range(1, 2) {
+        if o.comments {
+            while t.more(p.trailing_comments.len(), 0, 2, 1, 9) {
                 p.trailing_comments.push(gen_comment(t, o.unicode));
             }
         }
         d.paras.push(p);
-        if pi + 1 < np {
-            d.gaps.push(gen_gap(t, o, true, 1));
-        }
     }
-    if np > 0 {
-        let tr = gen_gap(t, o, true, 0);
-        // the mandatory leading Empty of a trailing gap is optional at end of file
-        d.trailing = if tr.len() == 1 && !t.chance(1, 4) { vec![] } else { tr };
+    if !d.paras.is_empty() && trailing_gap {
+        d.trailing = gen_gap(t, o, true);
     }
-    d.final_newline = !(o.layout && t.chance(1, 5));
     d
 }
